@@ -176,7 +176,7 @@ def rule_debug_assert(text, ctx):
         r = 'assert!(%s != %s)' % (a.strip(), b.strip())
         ctx.note('R8', m.group(0), r)
         return r
-    text = re.sub(r'debug_assert_ne!\(((?:[^()]|\([^()]*\))*)\)', ne, text)
+    text = re.sub(r'(?:debug_)?assert_ne!\(((?:[^()]|\([^()]*\))*)\)', ne, text)
 
     def pl(m):
         ctx.note('R8', m.group(0), 'assert!(')
